@@ -3,7 +3,7 @@
 # the device of the file a symbolic link points to, not by the device the link itself is on.
 # Dry run announces 1 processed file, the real run fails with EXDEV and processes 0;
 # the printed script, run by bash, deletes the symbolic link.
-CHECKOUT=${1:-/tmp/hunt/n2}
+CHECKOUT=${1:-/repo}
 F=$CHECKOUT/target/debug/fclones
 D=$(mktemp -d); S=$(mktemp -d -p /dev/shm 2>/dev/null)
 trap 'rm -rf "$D" "$S"' EXIT
